@@ -58,6 +58,7 @@ class Acc:
         self.cases = 0            # enumerated cases
         self.nontrivial = 0       # distinct cases that are non-trivial by the module's RULE
         self.states = 0           # history-search checks: distinct canonical states
+        self.state_set = set()    # optional: hashes of canonical states (merged exactly; overrides `states` if used)
         self.transitions = 0      # history-search checks: real method calls taken as transitions
         self.max_depth = 0
         self.outcomes = set()     # hashes of observed outcomes (vacuity guard)
@@ -92,6 +93,7 @@ class Acc:
         self.transitions += other.transitions
         self.max_depth = max(self.max_depth, other.max_depth)
         self.outcomes |= other.outcomes
+        self.state_set |= other.state_set
         for k, v in other.viol.items():
             if k in self.viol:
                 self.viol[k][0] += v[0]
